@@ -1,6 +1,7 @@
 package main
 
 import (
+	"bytes"
 	"encoding/hex"
 	"encoding/json"
 	"fmt"
@@ -263,6 +264,29 @@ func init() {
 		pn := call(func() { _ = bip39.MnemonicToSeed(mn, pw) })
 		fmt.Printf("MnemonicToSeed(%+q, %+q) panic=%q\n", mn, pw, pn)
 		return pn == ""
+	}
+	replayers["check-returns"] = func(m *ref.Model, cs map[string]interface{}) bool {
+		s, l := string(unhex(cs["sentence"])), toInt(cs["lang"])
+		pn := call(func() { _ = bip39.CheckMnemonic(s, Langs[l]); _ = bip39.IsMnemonicValid(s, Langs[l]) })
+		fmt.Printf("CheckMnemonic / IsMnemonicValid(%q, %s) panic=%q\n", s, ref.LangNames[l], pn)
+		return pn == ""
+	}
+	replayers["list-after-use"] = func(m *ref.Model, cs map[string]interface{}) bool {
+		l, i := toInt(cs["lang"]), toInt(cs["index"])
+		words := m.Words(bytes.Repeat([]byte{byte(0x31 + l)}, 32), l)
+		for _, p := range []int{0, 7, 23} {
+			for _, tok := range []string{"zz" + words[p], m.List[(l+1)%ref.NLang][1234], words[p] + "\u0301", strings.ToUpper(words[p]) + "x"} {
+				t := append([]string(nil), words...)
+				t[p] = tok
+				call(func() { _ = bip39.CheckMnemonic(strings.Join(t, " "), Langs[l]) })
+			}
+		}
+		call(func() { _ = bip39.CheckMnemonic(strings.Join(words[:23], " "), Langs[l]) })
+		e := entropyWithWindow(16, 0, i, 0x55)
+		got, err := bip39.NewMnemonicByEntropy(e, Langs[l])
+		want := m.Encode(e, l)
+		fmt.Printf("after failing validations in %s: NewMnemonicByEntropy(%x) = %q err=%v\n expected: %q\n", ref.LangNames[l], e, got, err, want)
+		return err == nil && got == want
 	}
 	replayers["big"] = func(m *ref.Model, cs map[string]interface{}) bool {
 		unit, n := string(unhex(cs["unit"])), toInt(cs["repeat"])
